@@ -153,7 +153,6 @@ def judgeStep (p : Port) (j : J) (e : Ev) : J :=
     | _ => j
   | .cberr => { j with aborted := true }
   | .ask n =>
-    let j := { j with aborted := false }
     let j := if n + 1 ≤ MAXT then j else j.fail s!"ask {n} exceeds the input buffer"
     match p with
     | .telnet =>
@@ -166,7 +165,7 @@ def judgeStep (p : Port) (j : J) (e : Ev) : J :=
           else j
         { j with exact := false }
     | _ => j
-  | .rx b => { j with rx := j.rx ++ b }
+  | .rx b => { j with rx := j.rx ++ b, aborted := false }     -- a read that got data runs the delivery loop again
   | .cl b =>
     -- console blob: if it does not fit behind text_end it is dropped as a whole - unless only an unfinished
     -- (over-long) line is pending: then that line is discarded first
